@@ -2,6 +2,7 @@
 From Coq Require Import List NArith Bool.
 Import ListNotations.
 Require Import V.C13.Model V.C13.Proofs V.C13.RelModel V.C13.RelProofs.
+Require Import V.C13.NameModel V.C13.NameProofs V.gen.NameToPath.
 Open Scope N_scope.
 
 (* Consistent renaming.  A script context c and a reference p are given as TAGGED segments:
@@ -77,6 +78,19 @@ Theorem frame_main_resolves_under_main_framer : forall nm (c : ctx N) x rest,
 Proof. exact frame_main_under_main_framer. Qed.
 Print Assumptions frame_main_resolves_under_main_framer.
 
+(* aiding.nameToPath as TRANSLATED from the source (gen/NameToPath.v) is the documented rule: every
+   upper case letter opens a new node (a dot and its lower case), the path ends in a dot. *)
+Theorem name_to_path_is_documented_rule : forall name, name_to_path name = ref_name_to_path name.
+Proof. exact generated_is_documented_l. Qed.
+Print Assumptions name_to_path_is_documented_rule.
+
+(* Distinct names give distinct actor paths: renaming an actor to any other (dot-free) name changes the
+   segments nameToPath contributes -- ABc, Abc, AbC, PID, Pid all differ. *)
+Theorem name_to_path_injective : forall a b, no_dot a -> no_dot b ->
+  name_to_path a = name_to_path b -> a = b.
+Proof. exact name_to_path_injective_l. Qed.
+Print Assumptions name_to_path_injective.
+
 (* non-vacuity: testNestedVia.flo -- `do doer param via testnest per color red` in frame nest of
    framer test (inode top): ioinit inode [testnest], path [red]  ->  top.testnest.red ;
    strings: 10=top 11=testnest 12=red *)
@@ -93,4 +107,11 @@ Example c13_me_substitution :
   = Ok [1; 20; 4; 22; 30] /\
   resolve_str (mknames 20 21 22 23 [24]) (mkctx false true None [] [] [] []) [1; 3; 30] = ErrResolve /\
   resolve_str (mknames 20 21 22 23 [24]) (mkctx false true None [] [] [] []) [1] = ErrIndex.
+Proof. vm_compute. repeat split; reflexivity. Qed.
+
+(* non-vacuity: ABc -> a.bc (parts a, bc), PID -> p.i.d, Abc -> abc *)
+Example c13_name_to_path_runs :
+  actor_parts_of (name_to_path [65; 66; 99]) = [[97]; [98; 99]] /\
+  actor_parts_of (name_to_path [80; 73; 68]) = [[112]; [105]; [100]] /\
+  actor_parts_of (name_to_path [65; 98; 99]) = [[97; 98; 99]].
 Proof. vm_compute. repeat split; reflexivity. Qed.
